@@ -183,6 +183,12 @@ def _canon(e):
         if (isinstance(v, tuple) and len(v) == 3 and v[0] == "tuple" and all(isinstance(x, tuple) and len(x) == 3 and x[0] == "item" for x in v[1:]) and v[1][2] == 0 and v[2][2] == 1
                 and v[1][1] == v[2][1] and isinstance(v[1][1], tuple) and v[1][1][0] == "elem" and v[1][1][1] == it):
             return ("call", "dict", (canon(it),), ())  # {k: v for k, v in pairs} is dict(pairs)
+    if t == "dictmerge" and len(e) == 3:
+        a, b = e[1], e[2]
+        # the result is a new dict either way: a copy of the first operand is the first operand
+        while isinstance(a, tuple) and a and ((a[0] == "mcall" and a[2] == "copy" and not a[3]) or (a[0] == "call" and a[1] == "dict" and len(a[2]) == 1 and not a[3])):
+            a = a[1] if a[0] == "mcall" else a[2][0]
+        return ("dictmerge", canon(a), canon(b))
     if t == "isnan_ne":
         return ("isnan", canon(e[1]))
     if t == "isnone" and len(e) == 2 and isinstance(e[1], tuple) and e[1]:
